@@ -88,7 +88,12 @@ pub trait BlsSignCrypt:
         if shares.len() < 2 {
             return CtOption::new(vec![], 0u8.into());
         }
-        let ua = combine_shares_group(shares).ok().unwrap_or_default();
+        // Shares that do not recombine (a payload that is not a valid point, a
+        // duplicated or zero identifier) open nothing; decrypting with a
+        // default key instead could return an arbitrary "plaintext"
+        let Ok(ua) = combine_shares_group(shares) else {
+            return CtOption::new(vec![], 0u8.into());
+        };
         Self::decrypt(v, ua, Self::valid(u, v, w, dst))
     }
 
